@@ -355,7 +355,7 @@ func (z *zkDCS) AcquireLock(path string) bool {
 		z.lockHeld.Delete(fullPath)
 	}
 	self := z.getSelfLockOwner()
-	data, _, err := z.retryGet(fullPath)
+	data, stat, err := z.retryGet(fullPath)
 	if err != nil && !errors.Is(err, zk.ErrNoNode) {
 		z.logger.Error().Err(err).Msgf("failed to get lock info %s", fullPath)
 		return false
@@ -381,7 +381,9 @@ func (z *zkDCS) AcquireLock(path string) bool {
 		z.logger.Error().Err(err).Msgf("malformed lock data %s (%s)", fullPath, data)
 		return false
 	}
-	if owner == self {
+	// the lock node is ephemeral: it is ours only if it belongs to our own session.
+	// A restarted process with the same {hostname, pid} must not adopt the node of its dying predecessor
+	if owner == self && stat != nil && stat.EphemeralOwner == z.conn.SessionID() {
 		z.lockHeld.Store(fullPath, time.Now())
 		return true
 	}
@@ -401,7 +403,7 @@ func (z *zkDCS) ReleaseLock(path string) {
 		z.logger.Error().Err(err).Msgf("unexpected lock data %s (%s)", fullPath, data)
 		return
 	}
-	if owner != z.getSelfLockOwner() {
+	if owner != z.getSelfLockOwner() || stat == nil || stat.EphemeralOwner != z.conn.SessionID() {
 		z.logger.Error().Msgf("failed to release lock %s: process is not an owner", fullPath)
 		return
 	}
